@@ -207,7 +207,7 @@ func (e *Engine) callFunction(st *State, fn *ssa.Function, args []Value, binding
 		return r, out
 	}
 	// 4. contract in use-mode
-	if ct, ok := e.W.Contracts[name]; ok && ct.UseAtCalls && !e.harness.Real[name] && !e.inWrapperOf(name) {
+	if ct, ok := e.W.Contracts[name]; ok && ct.UseAtCalls && !e.harness.Real[name] && !e.inWrapperOf(name) && e.contractInScope(ct) {
 		return e.useContract(st, ct, fn, args, pos)
 	}
 	if e.inWrapperOf(name) && e.curCtr().mode == modeUse {
@@ -859,4 +859,12 @@ func stripTypeArgs(s string) string {
 		}
 	}
 	return sb.String()
+}
+
+func (e *Engine) contractInScope(ct *Contract) bool {
+	p := e.harness.Fn.Package()
+	if p == nil && e.harness.Fn.Origin() != nil {
+		p = e.harness.Fn.Origin().Package()
+	}
+	return p == nil || ct.Pkg == "" || ct.Pkg == p.Pkg.Path()
 }
